@@ -13,7 +13,7 @@
 From Coq Require Import List ZArith NArith String Ascii Decimal DecimalString.
 From DD Require Import Model.Circuit.
 Import ListNotations.
-Open Scope string_scope.
+Local Open Scope string_scope.
 
 Definition print_N (k : N) : string := NilEmpty.string_of_uint (N.to_uint k).
 Definition print_nat (k : nat) : string := print_N (N.of_nat k).
